@@ -768,6 +768,7 @@ def search(ctx, hints):
                 break
     t0 = time.time()
     budget = ctx.n(60, 600)
+    _known19 = [k for k in vlib.load_known_findings() if k.get('property') == 'C19' and k.get('status') == 'open']
     while not fails and time.time() - t0 < budget:
         tried += 1
         bs = GF.byte_soup(ctx.rng)
@@ -775,6 +776,6 @@ def search(ctx, hints):
         if not f:
             cs, _ = gen_api_cases(ctx, 1)
             f = oracle_api(cs[0], obs)
-        if f:
+        if f and classify(f, _known19) is None:
             fails.append(f)
     return {'failures': fails[:1], 'tried': tried}
